@@ -183,10 +183,85 @@ def nontrivial(case, out):
     return case.startswith("entity") and not out.startswith("ERR")
 
 
+def usable_after_additions(ctx, dist):
+    """end to end, through the public entry points: objects with several signatures / recipients produced (a) by
+    one call with a key set and ONE template object, (b) by one call with per-key templates, (c) by successive calls;
+    every key must still verify / decrypt afterwards, the shape must be the general form, and no two entries may
+    carry the same per-recipient parameters (epk, iv/tag, p2s)"""
+    import jwsgen as G
+    rep = ctx["rep"]
+    bdir = ctx["bdir"]
+    rnd = random.Random(ctx["seed"] + 16)
+    keys = G.standard_keys(bdir)
+    J = G.dumps
+    ec = [keys["P-256"], G.strip_meta(G.gen_keys(bdir, [{"kty": "EC", "crv": "P-256", "key_ops": ["deriveKey"]}])[0])]
+    families = {
+        "ECDH-ES+A128KW": ec,
+        "A128GCMKW": [G.oct_key(rnd, 16) for _ in range(3)],
+        "A128KW": [G.oct_key(rnd, 16) for _ in range(3)],
+        "PBES2-HS256+A128KW": [G.oct_key(rnd, 12) for _ in range(2)],
+        "mixed": [G.oct_key(rnd, 16), keys["P-256"], G.oct_key(rnd, 32)],
+    }
+    req, meta = [], []
+    for fam, ks in families.items():
+        for tmpl_kind, rcp in (("one template with header", {"header": {"purpose": "c16"}}), ("one empty template", {}), ("no template", None),
+                               ("template per key", [{"header": {"n": i}} for i in range(len(ks))])):
+            jwe = {"protected": {"enc": "A128GCM"}}
+            if fam == "PBES2-HS256+A128KW":
+                jwe["protected"]["p2c"] = 1000
+                ks2 = [dict(k, alg=fam) for k in ks]
+            elif fam in ("A128GCMKW",):
+                ks2 = [dict(k, alg=fam) for k in ks]
+            else:
+                ks2 = ks
+            req.append("jweenc\t%s\t%s\t%s\t%s" % (J(jwe), "-" if rcp is None else J(rcp), J(ks2), b"c16".hex()))
+            meta.append((fam, tmpl_kind, ks2))
+    outs = G.harness(bdir, req)
+    dec, dmeta = [], []
+    for r, o, (fam, kind, ks) in zip(req, outs, meta):
+        if o.startswith("CRASH"):
+            rep.violation("usable:crash:" + fam, "crash: " + o[:200], {"case": r})
+            continue
+        if o == "ERR":
+            rep.violation("usable:enc-failed:%s:%s" % (fam, kind), "jose_jwe_enc with a key set (%s, %s) failed" % (fam, kind), {"case": r})
+            continue
+        tok = json.loads(o)
+        rc = tok.get("recipients")
+        if not isinstance(rc, list) or len(rc) != len(ks) or any(m in tok for m in ("header", "encrypted_key")):
+            rep.violation("usable:shape:%s:%s" % (fam, kind), "%d keys did not give the general form with %d recipients" % (len(ks), len(ks)), {"case": r, "implementation": o[:800]})
+            continue
+        seen = {}
+        for i, e in enumerate(rc):
+            hd = e.get("header") or {}
+            for m in ("epk", "iv", "tag", "p2s"):
+                if m in hd:
+                    v = J(hd[m])
+                    if (m, v) in seen:
+                        rep.violation("usable:shared-recipient-parameter:%s:%s" % (fam, m), "recipients %d and %d of one object carry the same %s: entries alias each other (%s, %s)" % (seen[(m, v)], i, m, fam, kind),
+                                      {"case": r, "implementation": o[:1200]})
+                    seen[(m, v)] = i
+        for i, k in enumerate(ks):
+            dec.append("jwedec\t%s\t-\t%s" % (o, J(k)))
+            dmeta.append((fam, kind, i, r))
+    for c, o, (fam, kind, i, r) in zip(dec, G.harness(bdir, dec), dmeta):
+        if o != "OK " + b"c16".hex():
+            rep.violation("usable:recipient-unusable:%s:%s" % (fam, kind), "recipient %d of an object made with a key set (%s, %s) cannot decrypt it any more: %s" % (i, fam, kind, o[:40]),
+                          {"case": c[:3000], "produced_by": r[:1500]})
+    dist["end-to-end: key sets x template forms, every recipient decrypts"] = len(dec)
+    return len(req) + len(dec)
+
+
 def correspond(ctx):
     cases, dist = gen(ctx["tier"], ctx["seed"])
+    n = usable_after_additions(ctx, dist)
+    st = standard_part(ctx, cases, dist)
+    st["evaluations"] += n
+    return st
+
+
+def standard_part(ctx, cases, dist):
     return runner.standard(
         ctx, cases, oracle, nontrivial,
-        rule="histories of add_entity calls (signature and recipient flavours) from 6 start shapes over 5 templates, malformed roots/objects, long random histories, encode_protected on every JSON type; non-trivial = first addition succeeded",
+        rule="end to end: jose_jwe_enc with key sets (ECDH-ES, GCMKW, KW, PBES2, mixed) x one template object / empty / none / one per key -- general form, no shared per-recipient parameters, every recipient still decrypts; histories of add_entity calls (signature and recipient flavours) from 6 start shapes over 5 templates, malformed roots/objects, long random histories, encode_protected on every JSON type; non-trivial = first addition succeeded",
         dist=dist,
         exhaustive_subspaces=["all histories of length <= %d over 5 templates from 6 start shapes, both flavours" % (4 if ctx["tier"] == "quick" else 5)])
